@@ -114,6 +114,28 @@ theorem accepted_never_internal (C : CryptoFns) (name : PStr) (u t : J) (gpg : B
         · left; simp [hm, Except.toBool]
         · right; simp only [hm, if_false]; exact ⟨_, rfl, rfl⟩
 
+/-- **the checker does not look at what the unsigned signature map is indexed by**: two envelopes with the same signed part whose signature maps hold the
+same entry *values* — filed under whatever indexes: other spellings of a key id, junk, the same entry twice under two spellings — get the same verdict -/
+theorem signature_indexes_irrelevant (m m' : J) (entries entries' : List (PStr × J)) (signed : J)
+    (hp : EnvParts m entries signed) (hp' : EnvParts m' entries' signed)
+    (hv : ∀ v, v ∈ entries.map (·.2) ↔ v ∈ entries'.map (·.2)) :
+    checkDelegatingMdJ m = checkDelegatingMdJ m' := by
+  have one : ∀ (a a' : J) (e e' : List (PStr × J)), EnvParts a e signed → EnvParts a' e' signed →
+      (∀ v, v ∈ e'.map (·.2) → v ∈ e.map (·.2)) → Schema a → Schema a' := by
+    intro a a' e e' ha ha' hsub ⟨e0, s0, hq, hall, hs⟩
+    obtain ⟨rfl, rfl⟩ := envParts_unique hq ha
+    refine ⟨e', s0, ha', fun p hpm => ?_, hs⟩
+    obtain ⟨q, hq1, hq2⟩ := List.mem_map.mp (hsub p.2 (List.mem_map_of_mem (f := (·.2)) hpm))
+    have := hall q hq1
+    rwa [hq2] at this
+  have key : Schema m ↔ Schema m' :=
+    ⟨one m m' entries entries' hp hp' (fun v h => (hv v).mpr h), one m' m entries' entries hp' hp (fun v h => (hv v).mp h)⟩
+  rw [checkDelegatingMd_eq, checkDelegatingMd_eq]
+  by_cases h : Schema m
+  · simp [h, key.mp h]
+  · have h' : ¬ Schema m' := fun x => h (key.mpr x)
+    simp [h, h']
+
 -- non-vacuity: a concrete document satisfying the schema, and the checker accepting it
 def sampleMd : J :=
   .obj [(ps! "signatures", .obj []),
